@@ -2,6 +2,7 @@ package main
 
 import (
 	"fmt"
+	"go/token"
 	"go/types"
 	"sort"
 	"strings"
@@ -435,12 +436,17 @@ func runC10(c *Ctx) {
 		for _, ci := range builtinCalls(fn, "copy") {
 			cp = ci
 		}
+		// the write cursor: the counter whose final value becomes the node's key count
 		var leftInc ssa.Instruction
+		var cursor *ssa.Phi
+		for _, ci := range callsTo(fn, "z.node.setNumKeys") {
+			if ph, ok := ci.Common().Args[1].(*ssa.Phi); ok {
+				cursor = ph
+			}
+		}
 		eachInstr(fn, func(in ssa.Instruction) {
-			if bo, ok := in.(*ssa.BinOp); ok && isConst(bo.Y, "1") {
-				if ph, ok := bo.X.(*ssa.Phi); ok && ph.Comment == "left" {
-					leftInc = bo
-				}
+			if bo, ok := in.(*ssa.BinOp); ok && bo.Op == token.ADD && isConst(bo.Y, "1") && cursor != nil && bo.X == ssa.Value(cursor) {
+				leftInc = bo
 			}
 		})
 		valLow := "lt(call[z.node.val](p[0],?r),p[1])"
